@@ -536,6 +536,10 @@ func (up4 *UP4) listenToDDNs() {
 		if up4.IsConnected(nil) {
 			// blocking
 			digestData := up4.p4client.GetNextDigestData()
+			if len(digestData) < 4 {
+				// no bitstring in the digest, or not a 32-bit UE address
+				continue
+			}
 
 			ueAddr := binary.BigEndian.Uint32(digestData)
 			if fseid, exists := up4.ueAddrToFSEID[ueAddr]; exists {
